@@ -114,6 +114,8 @@ theorem ramps_are_snapped_tents (bars : List (K × K)) (s e : K) (n : Nat) (hse 
   obtain ⟨p, _, rfl⟩ := List.mem_map.mp hx
   exact tent_nonneg _ _ _
 
+example : (0 : ℚ) ≤ 4 ∧ (2 : ℕ) ≤ 5 ∧ (2 : ℕ) < 5 := by norm_num
+
 /-- every returned row has `num_steps` entries -/
 theorem approx_shape (bars : List (K × K)) (s e : K) (n : Nat) :
     ∀ row ∈ (computeLandscape bars s e n).rows, row.length = n := by
@@ -223,6 +225,54 @@ theorem approx_half_step_default (dgms : List (Dgm K)) (homDeg : Nat) (d : Dgm K
   obtain ⟨v, hv, _, hb, _⟩ := approx_half_step dgms homDeg d hdeg none none s e hs he n hn hse hcov
   exact ⟨s, e, v, hs, he, hv, hb⟩
 
+/-- what the constructor rejects (the model mirrors the code's error paths): no diagrams at all,
+    a missing degree, an empty (after removing `+∞`) diagram without `start` or without `stop`,
+    `num_steps = 0`. -/
+theorem approx_errors (dgms : List (Dgm K)) (homDeg : Nat) (start stop : Option K) (n : Nat) :
+    (dgms = [] → persLandscapeApprox dgms homDeg start stop n = .error .noDiagrams) ∧
+    (dgms ≠ [] → dgms[homDeg]? = none → persLandscapeApprox dgms homDeg start stop n = .error .homDeg) ∧
+    (∀ d, dgms[homDeg]? = some d → finiteBars d = [] → (start = none ∨ stop = none) →
+      persLandscapeApprox dgms homDeg start stop n = .error .emptyDiagram) ∧
+    (∀ d s e, dgms[homDeg]? = some d → resolveStart start (finiteBars d) = some s →
+      resolveStop stop (finiteBars d) = some e → n = 0 →
+      persLandscapeApprox dgms homDeg start stop n = .error .noSteps) := by
+  refine ⟨?_, ?_, ?_, ?_⟩
+  · intro h; subst h; simp [persLandscapeApprox]
+  · intro h1 h2
+    have : dgms.isEmpty = false := by cases dgms <;> simp_all
+    simp [persLandscapeApprox, this, h2]
+  · intro d h1 h2 h3
+    have : dgms.isEmpty = false := by cases dgms <;> simp_all
+    unfold persLandscapeApprox
+    simp only [this, h1, h2, Bool.false_eq_true, ↓reduceIte]
+    rcases h3 with rfl | rfl
+    · simp [resolveStart, minBirth]
+    · cases hs : resolveStart start ([] : List (K × K)) <;> simp [resolveStop, maxDeath]
+  · intro d s e h1 h2 h3 h4
+    have : dgms.isEmpty = false := by cases dgms <;> simp_all
+    simp [persLandscapeApprox, this, h1, h2, h3, h4]
+
+/-- non-vacuity of `approx_half_step`: a diagram with an infinite bar (removed) and a bar whose
+    endpoints sit on midpoints between nodes, on the covering grid `[0, 4]` with 5 nodes; the
+    constructor's answer, computed by the kernel -/
+example : ∃ d, ([[(some (1 / 2 : ℚ), some (7 / 2 : ℚ)), (some 0, none)]] : List (Dgm ℚ))[0]? = some d ∧
+    resolveStart (some 0) (finiteBars d) = some 0 ∧ resolveStop (some 4) (finiteBars d) = some 4 ∧
+    (2 : ℕ) ≤ 5 ∧ (0 : ℚ) ≤ 4 ∧ Covers 0 4 (finiteBars d) ∧
+    persLandscapeApprox [[(some (1 / 2 : ℚ), some (7 / 2 : ℚ)), (some 0, none)]] 0 (some 0) (some 4) 5
+      = .ok (.mat [[0, 1, 1, 0, 0]]) := by
+  refine ⟨_, rfl, rfl, rfl, by norm_num, by norm_num, ?_, by decide +kernel⟩
+  intro p hp
+  have : p = ((1 / 2 : ℚ), (7 / 2 : ℚ)) := by simpa [finiteBars] using hp
+  subst this; norm_num
+
+/-- non-vacuity of `approx_half_step_default` -/
+example : finiteBars [(some (1 / 2 : ℚ), some (7 / 2 : ℚ)), (some 0, none)] ≠ [] ∧
+    ∀ p ∈ finiteBars [(some (1 / 2 : ℚ), some (7 / 2 : ℚ)), (some 0, none)], p.1 ≤ p.2 := by
+  refine ⟨by simp [finiteBars], ?_⟩
+  intro p hp
+  have : p = ((1 / 2 : ℚ), (7 / 2 : ℚ)) := by simpa [finiteBars] using hp
+  subst this; norm_num
+
 /-- non-vacuity: an off-grid diagram, covered by the grid `[0, 4]` with 5 nodes, with a bar whose
     endpoints sit exactly on midpoints between nodes -/
 example : (2 : ℕ) ≤ 5 ∧ (0 : ℚ) ≤ 4 ∧ Covers (0 : ℚ) 4 [(1 / 2, 7 / 2), (1, 4), (5 / 4, 2)] := by
@@ -288,6 +338,10 @@ theorem transformer_flat_entry (self : Landscaper K) (X : List (List (K × K))) 
       exact approx_shape (finiteBars d) s e self.numSteps row (by rw [← hveq]; exact hrow)
     intro k i hi
     exact flatten_getElem? rows self.numSteps hrows k i hi
+
+/-- non-vacuity of `transformer_flat_entry` -/
+example : persLandscapeApprox ([[((1 / 2 : ℚ), (7 / 2 : ℚ))]].map embed) 0 none none 4
+    = .ok (.mat [[0, 1, 1, 0]]) := by decide +kernel
 
 /-- `fit_transform` on a fresh transformer is `transform` with the grid learnt from `X[hom_deg]`,
     which is the grid the constructor itself would choose: the two calls agree whenever the
@@ -375,6 +429,10 @@ example : (∀ (l : List (ℚ × ℚ)) t, Increasing l → npInterp l t = npInte
     norm_num
   · intro p hp; simp at hp; rw [← hp]
   · intro p hp; simp at hp; rw [← hp]
+
+/-- a concrete run of `vectorize` on that depth with the default grid -/
+example : vectorize npInterp [[((0 : ℚ), (0 : ℚ)), (3 / 2, 3 / 2), (3, 0)]] none none 3 = .ok [[0, 3 / 2, 0]] := by
+  decide +kernel
 
 /-! ### the death vector -/
 
